@@ -311,6 +311,18 @@ void OPNMIDIplay::realTime_ResetState()
     synth.m_masterVolume = MasterVolumeDefault;
 }
 
+void OPNMIDIplay::realTime_ResetPrograms()
+{
+    for(size_t ch = 0; ch < m_midiChannels.size(); ch++)
+    {
+        MIDIchannel &chan = m_midiChannels[ch];
+        chan.patch = 0;
+        chan.bank_msb = 0;
+        chan.bank_lsb = 0;
+        chan.is_xg_percussion = false;
+    }
+}
+
 bool OPNMIDIplay::realTime_NoteOn(uint8_t channel, uint8_t note, uint8_t velocity)
 {
     Synth &synth = *m_synth;
